@@ -96,7 +96,92 @@ Fixpoint to_cm (c : xcm) : cm :=
   | XAny w => AnyElem (fun q => wns_allows w (ns_of q))
   | XOcc mn mx c => Occ mn mx (to_cm c)
   end.
-Definition xmatches (c : xcm) (w : list name) : bool := matches (to_cm c) w.
+Definition xmatches_cm (c : xcm) (w : list name) : bool := matches (to_cm c) w.
+
+(* A matcher of its own for the typed validity check: Brzozowski derivatives on xcm with the alternatives of a
+   choice flattened and de-duplicated (structural equality is decidable on xcm: wildcards are data here), so
+   that ambiguous models with nested optional repetitions do not blow up. *)
+Definition wns_eqb (a b : wns) : bool :=
+  match a, b with
+  | WAny, WAny => true
+  | WOther s, WOther t => ns_eqb s t
+  | WIn l, WIn m => list_eqb ns_eqb l m
+  | _, _ => false
+  end.
+Definition enat_eqb (a b : enat) : bool := opt_eqb Nat.eqb a b.
+
+Fixpoint xcm_eqb (a b : xcm) : bool :=
+  match a, b with
+  | XEl p, XEl q => name_eqb p q
+  | XSeq l, XSeq m | XChoice l, XChoice m | XAll l, XAll m =>
+      (fix go (l m : list xcm) : bool :=
+         match l, m with
+         | [], [] => true
+         | x :: l', y :: m' => xcm_eqb x y && go l' m'
+         | _, _ => false
+         end) l m
+  | XAny c, XAny d => wns_eqb c d
+  | XOcc mn mx c, XOcc mn' mx' d => (mn =? mn') && enat_eqb mx mx' && xcm_eqb c d
+  | _, _ => false
+  end.
+
+Definition XEmpty : xcm := XChoice [].
+Definition x_is_empty (c : xcm) : bool := match c with XChoice [] => true | _ => false end.
+Definition x_is_eps (c : xcm) : bool := match c with XSeq [] => true | _ => false end.
+
+Fixpoint xnullable (c : xcm) : bool :=
+  match c with
+  | XEl _ | XAny _ => false
+  | XSeq l | XAll l => forallb xnullable l
+  | XChoice l => existsb xnullable l
+  | XOcc mn _ c => (mn =? 0) || xnullable c
+  end.
+
+Fixpoint dedupe (l : list xcm) : list xcm :=
+  match l with
+  | [] => []
+  | x :: r => if existsb (xcm_eqb x) r then dedupe r else x :: dedupe r
+  end.
+
+(* partial derivatives (Antimirov): the SET of residual models after reading one child; residuals are kept as
+   flat sequences of sub-models of the original, so the number of distinct states stays linear in the model
+   (times the bounded counters) *)
+Definition seq_cat (p : xcm) (r : list xcm) : xcm :=
+  match p, r with
+  | XSeq l, _ => XSeq (l ++ r)
+  | _, [] => p
+  | _, _ => XSeq (p :: r)
+  end.
+
+Fixpoint xpd (a : name) (c : xcm) : list xcm :=
+  match c with
+  | XEl q => if name_eqb q a then [XSeq []] else []
+  | XAny w => if wns_allows w (ns_of a) then [XSeq []] else []
+  | XSeq l =>
+      (fix go (l : list xcm) : list xcm :=
+         match l with
+         | [] => []
+         | c :: r => map (fun p => seq_cat p r) (xpd a c) ++ (if xnullable c then go r else [])
+         end) l
+  | XChoice l => concat (map (xpd a) l)
+  | XAll l =>
+      (fix dall (pre l : list xcm) : list xcm :=
+         match l with
+         | [] => []
+         | c :: r => map (fun p => seq_cat p [XAll (rev pre ++ r)]) (xpd a c) ++ dall (c :: pre) r
+         end) [] l
+  | XOcc mn mx c => if ezero mx then [] else map (fun p => seq_cat p [XOcc (pred mn) (epred mx) c]) (xpd a c)
+  end.
+
+Fixpoint xrun (states : list xcm) (w : list name) : bool :=
+  match w with
+  | [] => existsb xnullable states
+  | a :: r => match dedupe (concat (map (xpd a) states)) with
+              | [] => false
+              | st' => xrun st' r
+              end
+  end.
+Definition xmatches (c : xcm) (w : list name) : bool := xrun [c] w.
 
 Fixpoint xalphabet (c : xcm) : list name :=
   match c with
@@ -170,6 +255,23 @@ Definition xrank_of (fs : list xfield) (q : name) : nat :=
   | Some i => xf_rank (nth i fs xdflt_field)
   | None => match fs with f :: _ => xf_rank f | [] => 0 end
   end.
+
+(* ---------------------------------------------------------------- metadata of two option sets *)
+Definition xfield_eqb (a b : xfield) : bool :=
+  list_eqb name_eqb (xf_names a) (xf_names b)
+  && opt_eqb (list_eqb (fun x y => match x, y with
+                                   | FAny, FAny => true
+                                   | FIs m, FIs n => ns_eqb m n
+                                   | FNot u, FNot v => str_eqb u v
+                                   | _, _ => false end)) (xf_wild a) (xf_wild b)
+  && Bool.eqb (xf_bounded a) (xf_bounded b) && Bool.eqb (xf_required a) (xf_required b) && (xf_rank a =? xf_rank b).
+
+
+(* the abstract of the metadata two option sets must agree on: collection factories (list / tuple) and the
+   nesting of the classes are not part of xmeta at all; what is left must coincide *)
+Definition meta_equiv (m m' : xmeta) : bool :=
+  list_eqb xfield_eqb (xm_fields m) (xm_fields m') && Bool.eqb (xm_text m) (xm_text m') && Bool.eqb (xm_mixed m) (xm_mixed m').
+
 
 (* ---------------------------------------------------------------- the encoding into Spec/Cm.v
    Known names K stay themselves; any other name is represented by one abstract letter per
